@@ -11,7 +11,7 @@ R = lambda n: ("ref", n)  # noqa: E731
 # helper rules: n non-silent, s silent (produces a pair and can then still fail)
 HELPERS = (("n", "", S("a")), ("s", "_", ("seq", (R("n"), S("b")))))
 
-T_CORE = (S("a"), S("b"), S("ab"), ("ci", "a"), ("range", "a", "b"), R("ANY"), R("EOI"), R("n"), R("s"), R("SOI"), R("ASCII_ALPHA_UPPER"))
+T_CORE = (S("a"), S("b"), S("ab"), ("ci", "a"), ("range", "a", "b"), R("ANY"), R("EOI"), R("n"), R("s"), R("SOI"), R("ASCII_HEX_DIGIT"))
 SIGMA_CORE = "abA"
 
 _inputs_cache: dict = {}
@@ -99,6 +99,8 @@ def contexts():
         "push_peek": simple(lambda h: ("seq", (("push", h), ("peekall",), REST))),
         "prepushed": simple(lambda h: ("seq", (("pushlit", "a"), h, REST))),
         "prepushed_opt_abandon": simple(lambda h: ("seq", (("pushlit", "a"), ("opt", ab(h)), ("peekall",), REST))),
+        # two entries pushed WITHOUT consuming input: a stack terminal in the hole starts matching at the very start of the parse
+        "prepushed_two_literals": simple(lambda h: ("seq", (("pushlit", "a"), ("pushlit", "b"), h, REST))),
     }
     # the hole as the WHOLE body of a rule that is called with a non-empty stack (generated templates for stack
     # terminals are only exercised bare - outside any sequence/choice that presets the result - in this shape)
@@ -190,8 +192,8 @@ def c01_specs(tier: str, kmode: str = "zero", terminals=T_FULL, soi_free: bool =
 
 
 def c01_rule_text():
-    return ("(a) top level: every expression with <= n nodes over {\"a\",\"b\",\"ab\",^\"a\",^\"ab\",'a'..'b',ANY,EOI,SOI,ASCII_ALPHA_UPPER,n,s, PUSH(\"a\"|\"b\"),POP,PEEK,DROP,PEEK_ALL,POP_ALL,PUSH_LITERAL(\"b\"),PEEK[0..],PEEK[-1..], #tt = n, #tt = (n ~ \"b\"), #tt = s} "
+    return ("(a) top level: every expression with <= n nodes over {\"a\",\"b\",\"ab\",^\"a\",^\"ab\",'a'..'b',ANY,EOI,SOI,ASCII_HEX_DIGIT,n,s, PUSH(\"a\"|\"b\"),POP,PEEK,DROP,PEEK_ALL,POP_ALL,PUSH_LITERAL(\"b\"),PEEK[0..],PEEK[-1..], #tt = n, #tt = (n ~ \"b\"), #tt = s} "
             "with ( ) ? * + {2} {1,} {,2} {1,2} & ! ~ |, x start-rule modifier x trivia configuration; "
             "(b) contexts: every hole expression placed at top level, left/right of a sequence, as an alternative that commits and is then abandoned ((HOLE ~ \"!\") | ANY*), under ? * + {2} {1,} {,2} {1,2} with the same abandon trick, "
-            "under & ! !! , inside PUSH( ), after a pre-pushed stack entry, as the whole body of a rule called with one or two entries on the stack, and as the body of a _ @ $ ! rule called from a normal, an atomic and a compound parent (36 contexts); "
+            "under & ! !! , inside PUSH( ), after a pre-pushed stack entry, as the whole body of a rule called with one or two entries on the stack, and as the body of a _ @ $ ! rule called from a normal, an atomic and a compound parent (37 contexts); "
             "x every string over {a,b,A}+trivia symbols up to the length bound; start rules are batched 40 per grammar and failing cases re-run on the isolated rule")
